@@ -109,6 +109,10 @@ Cond_X_ReaderFailure == (IsBuildAny /\ "readFail" \in DOMAIN Ev /\ Ev.readFail >
 \* ---- C10 ----
 Cond_C10_Same == (IsBuildAny /\ Ev.ret.e = "nil") =>
     \A k \in 1 .. Len(first) : first[k][1] = Ev.input => (first[k][2] = Ev.root /\ first[k][3] = Ev.ret.size)
+\* C07: every further build of the same input in the case (into the same store, over a swapped store, after unrelated
+\* builds, by concurrent builders) has the root of the first one - the one compared with the reference importer
+Cond_C07_RefSame == (IsBuildAny /\ Ev.ret.e = "nil") =>
+    \A k \in 1 .. Len(first) : first[k][1] = Ev.input => first[k][2] = Ev.root
 
 \* large builds: the same facts computed by the harness (see build.go summarizeBig)
 Cond_C16_Big == (IsBuildAny /\ Ev.big) => (Ev.bigOK.nodangling /\ Ev.bigOK.complete)
@@ -126,6 +130,7 @@ Inv_C07_Shape == Chk("Inv_C07_Shape", Cond_C07_Shape)
 Inv_C07_RefShape == Chk("Inv_C07_RefShape", Cond_C07_RefShape)
 Inv_C07_RefEq == Chk("Inv_C07_RefEq", Cond_C07_RefEq)
 Inv_C10_Same == Chk("Inv_C10_Same", Cond_C10_Same)
+Inv_C07_RefSame == Chk("Inv_C07_RefSame", Cond_C07_RefSame)
 Inv_X_TrickleShape == Chk("Inv_X_TrickleShape", Cond_X_TrickleShape)
 Inv_X_ReaderFailure == Chk("Inv_X_ReaderFailure", Cond_X_ReaderFailure)
 Inv_C16_Big == Chk("Inv_C16_Big", Cond_C16_Big)
